@@ -382,6 +382,15 @@ func genReload(r *rand.Rand, id string, size int, total int) []string {
 		for k := g.pick(3); k > 0; k-- {
 			write(p)
 		}
+		if kind == "log" && g.pick(3) == 0 {
+			// a device error on the head write: the write must NOT be acknowledged (its entry is in
+			// the log but nothing durable points to it); whatever is acknowledged must come back
+			g.add("failput %d", p)
+			write(p)
+			if g.pick(2) == 0 {
+				write(p)
+			}
+		}
 		if g.pick(3) == 0 {
 			deliver(q, p)
 		}
@@ -568,11 +577,20 @@ func genForge(r *rand.Rand, id string, size int, total int) []string {
 			if g.pick(2) == 0 {
 				base = fmt.Sprint(members[g.pick(len(members))])
 			}
-			g.add("forge %d recipe=%s as=%d base=%s k=%s v=%s", att, rec, as, base, hx(keys[g.pick(2)]), hx(g.value()))
+			shape := g.pick(4)
+			// a head that names a writer but is not signed by it may point to a block nobody serves
+			// (only when it is delivered as a head: hidden behind a colluding WRITER's entry it is that
+			// writer who names an unservable ancestor, which the properties do not quantify over)
+			if (rec == "foreignkey" || rec == "mut-sig" || rec == "mut-payload") && shape < 3 && g.pick(3) == 0 {
+				g.add("forge %d recipe=own base=none k=%s v=%s", att, hx(keys[g.pick(2)]), hx(g.value()))
+				g.add("dropblock @last")
+				g.add("forge %d recipe=%s as=%d base=%s extra=@last k=%s v=%s", att, rec, as, base, hx(keys[g.pick(2)]), hx(g.value()))
+			} else {
+				g.add("forge %d recipe=%s as=%d base=%s k=%s v=%s", att, rec, as, base, hx(keys[g.pick(2)]), hx(g.value()))
+			}
 			nForged++
 			q := members[g.pick(len(members))]
 			route := []string{"sync", "pub", "dc"}[g.pick(3)]
-			shape := g.pick(4)
 			// a head that Sync's access check refuses may name a block that nobody serves
 			refusedAtSync := map[string]bool{"copiedid": true, "copiedblock": true, "othertype": true, "selfsigned": true,
 				"mut-identpk": true, "mut-identsig": true, "mut-identtype": true, "mut-identsigpk": true, "mut-key": true}
